@@ -112,6 +112,40 @@ impl SnmpV3ClientSocket {
     fn get_fd(&self) -> PyResult<i32> {
         Ok(self.io.as_raw_fd())
     }
+    /// Verification hook: (request id, msg id, engine id, boots, time, user,
+    /// has_auth, auth key, cipher code, next salt, private buffer length)
+    #[cfg(gufo_snmp_verif)]
+    #[allow(clippy::type_complexity)]
+    fn verif_state(
+        &self,
+    ) -> PyResult<(
+        i64,
+        i64,
+        Vec<u8>,
+        i64,
+        i64,
+        String,
+        bool,
+        Vec<u8>,
+        u8,
+        u64,
+        usize,
+    )> {
+        let (pc, salt, pl) = self.priv_key.verif_state();
+        Ok((
+            self.request_id.verif_value(),
+            self.msg_id.verif_value(),
+            self.engine_id.clone(),
+            self.engine_boots,
+            self.engine_time,
+            self.user_name.clone(),
+            self.auth_key.has_auth(),
+            self.auth_key.get_key().to_vec(),
+            pc,
+            salt,
+            pl,
+        ))
+    }
     /// Get engine id
     fn get_engine_id(&self, py: Python) -> PyResult<PyObject> {
         Ok(PyBytes::new(py, &self.engine_id).into())
